@@ -53,6 +53,8 @@ CORPUS = [
     # F20 (silent): broadcast_to over a node whose chunks a rewrite changes -> wrong values
     ("F20w", ("diff", ("elem", "abs", ("broadcast_to", ("diff", ("src", 0), 0), (3, 4))), 1),
      [(np.array([-2, 5, 12, -4, 3], dtype="int64"), ((1, 1, 3),))]),
+    # F32: repeat over a zero-size chunk
+    ("F32", ("repeat", ("slice", ("src", 0), (S(None, -3, 3),)), 2, 0), [(np.array([-1, 6, 13, -3, 4, 11], dtype="int64"), ((2, 4),))]),
     # F21: diff over repeat over a concatenate raises NotImplementedError
     ("F21", ("diff", ("repeat", ("concat", (("reduce", "all", ("src", 0), (0,), True, None), ("src", 1)), 0), 2, 0), 0),
      [(np.array([-1, 6, 13], dtype="int64"), ((1, 2),)), (np.array([True, True]), ((1, 1),))]),
